@@ -259,6 +259,9 @@ def shape_configs(tier, strategies, sym_x_max_m, max_m, ns, adaptive_max_m=None)
             if adaptive and adaptive_max_m and m > adaptive_max_m:
                 continue
             for n in ns:
+                # adaptive strategies fork ~(a+3) ways per interval: keep (intervals x window) within reach
+                if adaptive and ((m >= 5 and n > 3) or (m == 4 and n > 6)):
+                    continue
                 grids = []
                 if m <= (sym_x_max_m if not adaptive else min(sym_x_max_m, 3)):
                     grids.append(None)
